@@ -221,6 +221,20 @@ fn gen_natural(rng: &mut Rng, idx: usize) -> String {
         "emit(f\"{undefined_in_fstring_zz}\")",
         "load(\"lib\", \"lib_typed\")\nemit(lib_typed(1))",
         "load(\"lib\", \"lib_typed_empty\")\nemit(lib_typed_empty())",
+        // Deeply nested values: every recursive native operation must end in an error (or a
+        // value), never in a native stack overflow.
+        "dz = []\nfor _i in range(30000):\n    dz = [dz]\nemit(len(json.encode(dz)))",
+        "dz = []\nfor _i in range(30000):\n    dz = [dz]\nemit(len(repr(dz)), len(str(dz)))",
+        "dz = {}\nfor _i in range(30000):\n    dz = {\"k\": dz}\nemit(len(json.encode(dz)))",
+        "dz = ()\nfor _i in range(30000):\n    dz = (dz,)\nemit({dz: 1}, hash(str(dz)[:5]))",
+        "dz = []\ndy = []\nfor _i in range(30000):\n    dz = [dz]\n    dy = [dy]\nemit(dz == dy, dz < dy, sorted([dz, dy]) != None, dz in [dy])",
+        "dz = struct(a = 1)\nfor _i in range(30000):\n    dz = struct(a = dz)\nemit(len(repr(dz)), len(json.encode(dz)))",
+        "dz = []\nfor _i in range(30000):\n    dz = [dz]\nemit(len(\"%s|%r\" % (dz, dz)), len(\"{}\".format(dz)))",
+        "emit(json.decode(\"[\" * 30000 + \"]\" * 30000))",
+        "dz = []\nfor _i in range(30000):\n    dz = [dz]\nprint(dz)",
+        // (pretty-printing indents every level: output grows with the square of the depth)
+        "dz = []\nfor _i in range(1500):\n    dz = [dz]\npprint(dz)",
+        "dz = []\nfor _i in range(30000):\n    dz = [dz]\nemit(type(dz), len(dz), bool(dz), dz[0] != None, list(dz) != None, dz + dz != None)",
         "emit(tqe_last())",
         "emit([tqe_last() for _ in range(2)])",
     ];
